@@ -7,11 +7,14 @@ The container structs of dryoc are GENERIC in their field types (`DryocSecretBox
 ByteArray<64>, Message: Bytes>`, `KeyPair<PublicKey, SecretKey>`, `SigningKeyPair<…>`, `Kdf<Key, Context>`,
 `Session<SessionKey>`), and `Vec<u8>` implements `ByteArray<N>` for EVERY `N` (/repo/src/types.rs:151).
 `Model/EncodingStruct.lean` hard-wires the fixed-length visitor `deFixed N` of /repo/src/bytes_serde.rs for the
-`ByteArray<N>` fields: right for `StackByteArray<N>`, `HeapByteArray<N>`, `Locked<HeapByteArray<N>>` — containers
-whose TYPE carries the length.  For `Vec<u8>` in such a position the derived `Deserialize` uses SERDE's OWN
-`impl Deserialize for Vec<T>` (serde_core/src/de/impls.rs: `deserializer.deserialize_seq(VecVisitor)`, whose
-`visit_seq` pushes every element), which knows nothing about `N`.  This file models that cell and makes the struct
-codecs parametric in the container kind of each field.
+`ByteArray<N>` fields.  That visitor exists for exactly two fixed-length containers: `StackByteArray<N>` and
+`Locked<HeapByteArray<N>>` (plus `deHeap` for `HeapBytes` and `LockedBytes`); unlocked `HeapByteArray<N>` and
+`LockedRO<HeapBytes>` have `Serialize` ONLY, so a struct instantiated with them has no `Deserialize` at all.
+For `Vec<u8>` in such a position the derived `Deserialize` uses SERDE's OWN `impl Deserialize for Vec<T>`
+(serde_core/src/de/impls.rs: `deserializer.deserialize_seq(VecVisitor)`, whose `visit_seq` pushes every element),
+which knows nothing about `N`; for a plain `[u8; N]` (the classic `PublicKey`, `Nonce`, `Mac`, … aliases, which are
+`ByteArray<N>` too) it uses serde's tuple impl (`Model.Encoding.deArray`: exactly `N` elements, `N ≤ 32` only).
+This file models those cells and makes the struct codecs parametric in the container kind of each field.
 
 It also holds the CODE-SHAPED serialisers (`to_bytes`, `into_vec`) with the panicking branches that the total
 `Model.SecretBox.toBytes`, `Model.Sign.toBytes`, `Model.SecretBox.intoVec` leave out.
@@ -23,12 +26,18 @@ open DryocVerif DryocVerif.Model.Encoding DryocVerif.Model.SecretBox DryocVerif.
 open DryocVerif.Model.KeyForms (copyIntoRange)
 
 /-- which kind of container instantiates a field's type parameter:
-`typed` = the length is in the type (`StackByteArray<N>`, `HeapByteArray<N>`, `Locked<…>`; for a `Bytes` field:
-`HeapBytes`, `LockedBytes`) and dryoc's own visitors of bytes_serde.rs are used;
-`vec` = `Vec<u8>` and serde's `Vec<T>` impls are used -/
+`typed` = one of the FOUR containers for which bytes_serde.rs implements `Deserialize`: `StackByteArray<N>`,
+`Locked<HeapByteArray<N>>` (fixed-length position, visitor `deFixed N`), `HeapBytes`, `LockedBytes` (variable-length
+position, visitor `deHeap`);
+`vec` = `Vec<u8>` and serde's `Vec<T>` impls are used;
+`array` = plain `[u8; N]` and serde's tuple impls are used (`deArray`) — N ≤ 32 only (serde); a struct with a
+`[u8; 64]` field has no derived Deserialize.
+NOT a kind: unlocked `HeapByteArray<N>`, `LockedRO<HeapBytes>` (`Serialize` only — nothing to model on the decoding
+side; on the encoding side they behave like `typed`). -/
 inductive Kind where
   | typed
   | vec
+  | array
   deriving Repr, DecidableEq
 
 /-- serde's `impl<'de, T> Deserialize<'de> for Vec<T>` at `T = u8`, for a field DECLARED as `ByteArray<n>`:
@@ -48,18 +57,32 @@ def deField (k : Kind) (sd : Bool) (n : Nat) (e : Enc) : Outcome Bytes :=
   match k with
   | .typed => deFixed n e
   | .vec => deVecFixed sd n e
+  | .array => deArray n e
 
-/-- `Deserialize` of a `Bytes` (variable-length) field, by container kind: `HeapBytes` / `LockedBytes` resp. `Vec<u8>` -/
+/-- `Deserialize` of a `Bytes` (variable-length) field, by container kind: `HeapBytes` / `LockedBytes` resp. `Vec<u8>`.
+`[u8; M]` is a `Bytes` too; its `M` belongs to the instantiation and is not an input here: the model takes the `M`
+that matches the offered payload, i.e. it accepts exactly the element sequences (the decision "is it `M` long" is
+`deArray`'s, see `deField`). -/
 def deData (k : Kind) (sd : Bool) (e : Enc) : Outcome Bytes :=
   match k with
   | .typed => deHeap e
   | .vec => deVecFixed sd 0 e
+  | .array => deArray e.payload.length e
 
-/-- `Serialize` of a field, by container kind -/
+/-- `Serialize` of a field, by container kind — the token given to the serializer (bincode shape; the
+format-aware version is `serField'`) -/
 def serField (k : Kind) (bs : Bytes) : Enc :=
   match k with
   | .typed => ser bs
   | .vec => serVec bs
+  | .array => serArray bs
+
+/-- **`Serialize` of a field as the FORMAT renders it** (`sd` = self-describing / JSON): dryoc's containers call
+`serialize_bytes`, which bincode writes as a byte string and serde_json writes as a JSON ARRAY of numbers — an element
+sequence when read back; `Vec<u8>` (`collect_seq`) and `[u8; N]` (`serialize_tuple`) are element sequences in every
+format. -/
+def serField' (k : Kind) (sd : Bool) (bs : Bytes) : Enc :=
+  if k ≠ .typed ∨ sd then .seq bs else .bytes bs
 
 /-! ### struct codecs, parametric in the container kinds -/
 
@@ -98,7 +121,16 @@ def dePairK (k₁ k₂ : Kind) (sd : Bool) (n m : Nat) (e : EncPair) : Outcome (
   Outcome.andThen (deField k₂ sd m e.snd) fun b =>
   .ok (a, b)
 
-/-- the stack / heap / locked instantiations (what the type aliases `StackKeyPair`, `kdf::Key`, … give) -/
+/-- the struct serialisers as the format renders them (`serField'`) -/
+def serBoxK' (kE kT kD : Kind) (sd : Bool) (b : Box) : EncBox :=
+  ⟨b.epk.map (serField' kE sd), serField' kT sd b.tag, serField' kD sd b.data⟩
+
+def serSignedK' (kS kM : Kind) (sd : Bool) (sm : Bytes × Bytes) : EncSigned :=
+  ⟨serField' kS sd sm.1, serField' kM sd sm.2⟩
+
+def serPairK' (k₁ k₂ : Kind) (sd : Bool) (p : Bytes × Bytes) : EncPair := ⟨serField' k₁ sd p.1, serField' k₂ sd p.2⟩
+
+/-- the stack / locked instantiations (what the type aliases `StackKeyPair`, `kdf::Key`, … give) -/
 def serPair (p : Bytes × Bytes) : EncPair := serPairK .typed .typed p
 def dePair (n m : Nat) (e : EncPair) : Outcome (Bytes × Bytes) := dePairK .typed .typed false n m e
 
@@ -114,6 +146,26 @@ def intoParts (b : Box) : Bytes × Bytes × Option Bytes := (b.tag, b.data, b.ep
 /-- `SignedMessage::from_parts(signature, message)` / `into_parts` -/
 def signedFromParts (sig msg : Bytes) : Bytes × Bytes := (sig, msg)
 def signedIntoParts (sm : Bytes × Bytes) : Bytes × Bytes := (sm.1, sm.2)
+
+/-! ### `from_slices` -/
+
+/-- `<C as TryFrom<&[u8]>>::try_from(slice)` for a `ByteArray<n>` container `C`, by kind: dryoc's
+`TryFrom<&[u8]> for StackByteArray<N>` / `HeapByteArray<N>` and std's `TryFrom<&[u8]> for [u8; N]` are strict
+(`tryFromSlice`); for `Vec<u8>` it is std's blanket `TryFrom` from the INFALLIBLE `From<&[u8]>` (`fromSlice`) -/
+def tryField (k : Kind) (n : Nat) (bs : Bytes) : Outcome Bytes :=
+  match k with
+  | .typed => tryFromSlice n bs
+  | .vec => .ok (fromSlice bs)
+  | .array => tryFromSlice n bs
+
+/-- `KeyPair::from_slices(public_key, secret_key)` (keypair.rs, `n = m = 32`) and `SigningKeyPair::from_slices`
+(sign.rs, `n = 32`, `m = 64`): `Ok(Self { public_key: PublicKey::try_from(public_key).map_err(..)?, secret_key:
+SecretKey::try_from(secret_key).map_err(..)? })` — the PUBLIC key is converted first ("invalid public key"), then the
+secret key ("invalid secret key"); `Outcome.err` carries no message, so the order shows only in the shape -/
+def fromSlices (k₁ k₂ : Kind) (n m : Nat) (a b : Bytes) : Outcome (Bytes × Bytes) :=
+  Outcome.andThen (tryField k₁ n a) fun pk =>
+  Outcome.andThen (tryField k₂ m b) fun sk =>
+  .ok (pk, sk)
 
 /-! ### code-shaped serialisers -/
 
